@@ -1150,11 +1150,12 @@ theorem stop_spec (s : St) (h : Inv b s) : Inv b (s.send .stop) ∧ (s.send .sto
       v3.cfg.trans (c2.trans st.cfg), v3.fs0.trans (f2.trans st.fs0)⟩
 
 /-- a new process life -/
-theorem reboot_spec (s : St) (h : Inv b s) :
+theorem reboot_spec' (s : St) (hgood : Good b s) (hfixed : s.cfg.emptyIsNew = true)
+    (hshape : Shape (content (s.fs.slots 0) ++ s.fs.buf)) :
     Inv b s.reboot ∧ s.reboot.cfg = s.cfg ∧ s.reboot.fs0 = s.fs0 := by
-  have hP := h.si.good.now
+  have hP := hgood.now
   have g1 : Good b (s.emit [if s.cfg.reuse then .reboot else .newdir]) := by
-    apply emit_good h.si.good
+    apply emit_good hgood
     by_cases hr : s.cfg.reuse = true
     · rw [if_pos hr]; exact ⟨hP, Q_of_ne (by simp), P_reboot _ _ _ hP⟩
     · rw [if_neg hr]; exact ⟨hP, Q_of_ne (by simp), P_newdir _ _ _⟩
@@ -1163,7 +1164,7 @@ theorem reboot_spec (s : St) (h : Inv b s) :
   have hbuf : (s.fs.apply (if s.cfg.reuse then Prim.reboot else Prim.newdir)).buf = [] := by
     split <;> rfl
   suffices si : SI b s.reboot from ⟨⟨si, fun hne => absurd rfl hne⟩, rfl, rfl⟩
-  refine ⟨g1.congr rfl rfl rfl rfl, ?_, h.si.fixed, ?_, ?_, ?_, ?_⟩
+  refine ⟨g1.congr rfl rfl rfl rfl, ?_, hfixed, ?_, ?_, ?_, ?_⟩
   · intro hp; cases hp
   · intro _; exact ⟨rfl, rfl⟩
   · -- what survives is a prefix of what was there
@@ -1172,7 +1173,7 @@ theorem reboot_spec (s : St) (h : Inv b s) :
     rw [hbuf, List.append_nil]
     by_cases hr : s.cfg.reuse = true
     · rw [if_pos hr]
-      exact Shape_prefix _ _ h.si.shape
+      exact Shape_prefix _ _ hshape
     · rw [if_neg hr]; exact Shape_nil
   · intro ho
     have : (s.fs.apply (if s.cfg.reuse then Prim.reboot else Prim.newdir)).isOpen = true := ho
@@ -1181,10 +1182,49 @@ theorem reboot_spec (s : St) (h : Inv b s) :
     have : (s.fs.apply (if s.cfg.reuse then Prim.reboot else Prim.newdir)).isOpen = true := ho
     rw [hclosed] at this; cases this
 
+theorem reboot_spec (s : St) (h : Inv b s) :
+    Inv b s.reboot ∧ s.reboot.cfg = s.cfg ∧ s.reboot.fs0 = s.fs0 :=
+  reboot_spec' s h.si.good h.si.fixed h.si.shape
+
+theorem AllP_prefix {cfg : Cfg} {fs : FS} {a : Acct} {xs ys : List Prim} (h : AllP cfg b fs a (xs ++ ys)) :
+    AllP cfg b fs a xs := by
+  induction xs generalizing fs a with
+  | nil => exact AllP_head h
+  | cons p r ih => exact ⟨h.1, h.2.1, ih h.2.2⟩
+
+/-- **a process killed in the middle of a control**: every prefix of the control's primitives is a
+crash point where `P` holds (headers included), and that is all the next process needs: the state
+it starts from is as good as one reached between controls -/
+theorem cut_spec (s s' : St) (k : Nat) (hb : b = true) (h' : Inv b s') :
+    Inv b (St.cut s s' k) ∧ (St.cut s s' k).cfg = s'.cfg ∧ (St.cut s s' k).fs0 = s'.fs0 := by
+  have hall : AllP s'.cfg b s'.fs0 {} (s'.trace.take (s.trace.length + k)) := by
+    have := h'.si.good.all
+    rw [← List.take_append_drop (s.trace.length + k) s'.trace] at this
+    exact AllP_prefix this
+  have hg : Good b (St.cutMid s s' k) := ⟨rfl, hall⟩
+  exact reboot_spec' _ hg h'.si.fixed (hg.now.shape0 hb)
+
 /-- RUN only to a started / running logger -/
-theorem step_spec (s : St) (op : Op) (h : Inv b s) (hp : proto s.status [op] = true) :
+theorem ctl_spec (s : St) (c : Ctl) (h : Inv b s) (hp : proto s.status [.ctl c] = true) :
+    Inv b (s.send c) ∧ (s.send c).cfg = s.cfg ∧ (s.send c).fs0 = s.fs0 := by
+  cases c with
+  | start => exact start_spec s h
+  | stop => exact stop_spec s h
+  | run =>
+    have hr : s.status ≠ .stopped := by
+      intro e; rw [e] at hp; simp [proto] at hp
+    exact run_spec s h hr
+
+theorem step_spec (s : St) (op : Op) (hb : b = true) (h : Inv b s) (hp : proto s.status [op] = true) :
     Inv b (s.step op) ∧ (s.step op).cfg = s.cfg ∧ (s.step op).fs0 = s.fs0 := by
   cases op with
+  | die c k =>
+    have hc : proto s.status [.ctl c] = true := by
+      cases c <;> simp [proto] at hp ⊢
+      exact hp
+    obtain ⟨i1, c1, f1⟩ := ctl_spec s c h hc
+    obtain ⟨i2, c2, f2⟩ := cut_spec s (s.send c) k hb i1
+    exact ⟨i2, c2.trans c1, f2.trans f1⟩
   | advance d =>
     exact ⟨⟨h.si.congr rfl rfl rfl rfl rfl rfl rfl, h.running⟩, rfl, rfl⟩
   | batch n =>
@@ -1205,6 +1245,7 @@ def nextStatus (st : Status) : Op → Status
   | .ctl .run => .running
   | .ctl .stop => .stopped
   | .reboot => .stopped
+  | .die _ _ => .stopped
   | _ => st
 
 theorem step_status (s : St) (op : Op) : (s.step op).status = nextStatus s.status op := by
@@ -1212,6 +1253,7 @@ theorem step_status (s : St) (op : Op) : (s.step op).status = nextStatus s.statu
   | advance d => rfl
   | batch n => rfl
   | reboot => rfl
+  | die c k => rfl
   | ctl c =>
     cases c with
     | start => rfl
@@ -1228,6 +1270,9 @@ theorem proto_cons (st : Status) (op : Op) (rest : List Op) (h : proto st (op ::
   | advance d => exact ⟨rfl, h⟩
   | batch n => exact ⟨rfl, h⟩
   | reboot => exact ⟨rfl, h⟩
+  | die c k =>
+    simp only [proto, Bool.and_eq_true] at h ⊢
+    exact ⟨⟨h.1, trivial⟩, h.2⟩
   | ctl c =>
     cases c with
     | start => exact ⟨rfl, h⟩
@@ -1236,13 +1281,13 @@ theorem proto_cons (st : Status) (op : Op) (rest : List Op) (h : proto st (op ::
       simp only [proto, Bool.and_eq_true] at h ⊢
       exact ⟨⟨h.1, trivial⟩, h.2⟩
 
-theorem exec_spec (s : St) (h : List Op) (hi : Inv b s) (hp : proto s.status h = true) :
+theorem exec_spec (s : St) (h : List Op) (hb : b = true) (hi : Inv b s) (hp : proto s.status h = true) :
     Inv b (s.exec h) ∧ (s.exec h).cfg = s.cfg ∧ (s.exec h).fs0 = s.fs0 := by
   induction h generalizing s with
   | nil => exact ⟨hi, rfl, rfl⟩
   | cons op rest ih =>
     obtain ⟨p1, p2⟩ := proto_cons _ _ _ hp
-    obtain ⟨i1, c1, f1⟩ := step_spec s op hi p1
+    obtain ⟨i1, c1, f1⟩ := step_spec s op hb hi p1
     obtain ⟨i2, c2, f2⟩ := ih (s.step op) i1 (by rw [step_status]; exact p2)
     exact ⟨i2, c2.trans c1, f2.trans f1⟩
 
@@ -1260,7 +1305,7 @@ theorem crash_points (cfg : Cfg) (hfix : cfg.emptyIsNew = true) (h : List Op) (h
     (n : Nat) :
     P cfg.keep true (({} : FS).applyAll (((St.init cfg).exec h).trace.take n))
       (acctOf (((St.init cfg).exec h).trace.take n)) := by
-  obtain ⟨i, c, f⟩ := exec_spec (b := true) (St.init cfg) h (init_inv cfg hfix) hp
+  obtain ⟨i, c, f⟩ := exec_spec (b := true) (St.init cfg) h rfl (init_inv cfg hfix) hp
   have hall := i.si.good.all
   have hf : ((St.init cfg).exec h).fs0 = {} := f
   have hc : ((St.init cfg).exec h).cfg = cfg := c
@@ -1270,18 +1315,12 @@ theorem crash_points (cfg : Cfg) (hfix : cfg.emptyIsNew = true) (h : List Op) (h
 theorem rotation_points (cfg : Cfg) (hfix : cfg.emptyIsNew = true) (h : List Op) (hp : proto .stopped h = true)
     (n : Nat) (p : Prim) (hn : ((St.init cfg).exec h).trace[n]? = some p) :
     Q cfg (({} : FS).applyAll (((St.init cfg).exec h).trace.take n)) p := by
-  obtain ⟨i, c, f⟩ := exec_spec (b := true) (St.init cfg) h (init_inv cfg hfix) hp
+  obtain ⟨i, c, f⟩ := exec_spec (b := true) (St.init cfg) h rfl (init_inv cfg hfix) hp
   have hall := i.si.good.all
   rw [f, c] at hall
   exact AllP_Q hall n p hn
 
 /-! ## the records are numbered in the order they are written -/
-
-/-- the records written by a trace -/
-def recW : List Prim → List Rec
-  | [] => []
-  | .write ls :: r => recsOf ls ++ recW r
-  | _ :: r => recW r
 
 theorem recW_append (a b : List Prim) : recW (a ++ b) = recW a ++ recW b := by
   induction a with
@@ -1430,8 +1469,58 @@ theorem logAll_numbered (s : St) (h : Numbered s) : Numbered s.logAll := by
     · exact h2
   · exact h2
 
+theorem recW_take_prefix (tr : List Prim) (n : Nat) : ∃ rest, recW tr = recW (tr.take n) ++ rest := by
+  refine ⟨recW (tr.drop n), ?_⟩
+  rw [← recW_append, List.take_append_drop]
+
+theorem range_take (n m : Nat) (h : m ≤ n) : (List.range n).take m = List.range m := by
+  rw [List.take_range]; congr 1; omega
+
+theorem cut_numbered (s s' : St) (k : Nat) (h : Numbered s') : Numbered (St.cut s s' k) := by
+  obtain ⟨rest, hr⟩ := recW_take_prefix s'.trace (s.trace.length + k)
+  have hmid : Numbered (St.cutMid s s' k) := by
+    show (recW (s'.trace.take (s.trace.length + k))).map (·.n) =
+      List.range (recW (s'.trace.take (s.trace.length + k))).length
+    have h1 : (recW s'.trace).map (·.n) = List.range s'.seq := h
+    rw [hr, List.map_append] at h1
+    have h2 := congrArg (List.take (recW (s'.trace.take (s.trace.length + k))).length) h1
+    rw [List.take_left' (by simp)] at h2
+    rw [h2]
+    apply range_take
+    have := congrArg List.length h1
+    simp at this
+    omega
+  have := emit_noRec (St.cutMid s s' k) [if (St.cutMid s s' k).cfg.reuse then .reboot else .newdir]
+    (by split <;> rfl)
+  exact hmid.noRec ⟨this.1, this.2⟩
+
+theorem send_numbered (s : St) (c : Ctl) (h : Numbered s) : Numbered (s.send c) := by
+  cases c with
+  | run => exact logAll_numbered s h
+  | start =>
+    simp only [St.send]
+    have h1 := h.noRec (reopen_noRec s s.cfg.keep)
+    generalize s.reopen s.cfg.keep = s1 at h1
+    have h2 : Numbered (if !s1.logged && s1.first then s1.emit [.write [.header]] else s1) := by
+      split
+      · exact h1.noRec (emit_noRec s1 _ rfl)
+      · exact h1
+    exact logAll_numbered _ h2
+  | stop =>
+    simp only [St.send]
+    split
+    · exact h
+    · have h1 := logAll_numbered s h
+      generalize s.logAll = s1 at h1
+      have h2 : Numbered (if s1.cfg.keep ≠ 0 ∧ s1.cfg.reuse = true then s1.cycle else s1) := by
+        split
+        · exact h1.noRec (cycle_noRec s1)
+        · exact h1
+      exact h2.noRec ⟨(closeLog_noRec _).1, (closeLog_noRec _).2⟩
+
 theorem step_numbered (s : St) (op : Op) (h : Numbered s) : Numbered (s.step op) := by
   cases op with
+  | die c k => exact cut_numbered s (s.send c) k (send_numbered s c h)
   | advance d => exact h
   | batch n => exact h
   | reboot =>
@@ -1465,9 +1554,5 @@ theorem exec_numbered (s : St) (h : List Op) (hn : Numbered s) : Numbered (s.exe
   induction h generalizing s with
   | nil => exact hn
   | cons op rest ih => exact ih _ (step_numbered s op hn)
-
-theorem recW_take_prefix (tr : List Prim) (n : Nat) : ∃ rest, recW tr = recW (tr.take n) ++ rest := by
-  refine ⟨recW (tr.drop n), ?_⟩
-  rw [← recW_append, List.take_append_drop]
 
 end Ioflo.Rotate
